@@ -772,9 +772,9 @@ def check_tiny_variance(case):
         raise Violation(
             f"variance {var:g} > 0 on cells of volume {V.flat[0]:.3g}, dt={dt}: the documented increment "
             f"sqrt(var*dt/V)*xi has size {np.max(np.abs(expect)):.3g} but the step added {np.max(np.abs(moved)):.3g} "
-            f"(is_sde={eq.is_sde}: SDEBase.is_sde uses np.allclose(noise, 0, atol=1e-14) although the documentation "
-            "says the equation is deterministic only if the variance is zero)",
-            key="C13:is_sde:variance-below-1e-14-treated-as-zero")
+            f"(is_sde={eq.is_sde}; the documentation says the equation is deterministic only if the variance "
+            "is zero)",
+            key="C13:is_sde:variance-below-1e-14-treated-as-zero" if not eq.is_sde else "tiny_variance:increment")
     return {"nt": True, "labels": ["family:" + case["family"]]}
 
 
